@@ -24,7 +24,7 @@ from machines.memview import View, handlers as mem_handlers
 PID = "C11"
 RULE = (
     "size: layouts none / TSL (rank 1-2, depth <= 2, bounds {1,2,3}, steps {1,2,4,6,12}, offsets {0,3}, dynamic outermost tile) x element widths {1,2,4,8} x run-time "
-    "shapes; static: all sequences of <= 4 allocations over sizes {1,7,64,100} x alignments {1,2,64,256} x memories {L1, Test(capacity 100)}; mini: all histories "
+    "shapes; static: all sequences of <= 4 allocations over sizes {1,7,64,100} x alignments {1,2,64,256} x memories {L1, Test(capacity 100), Odd(start 0x1004, capacity 300), Odd1(start 1, capacity 600)}; mini: all histories "
     "of <= 5 use events over 2-3 buffers (kinds: direct, through a subview, inside a loop), second/third buffer allocated up front or just before its first use, "
     "x ALL solver answers on a grid of 4 offsets; the histories of <= 3 events again with the buffers spread over two memory spaces (L1 / L3: one solver problem per "
     "space, every combination of answers, every buffer inside its own memory's address window). distinct = distinct (case, observation); non-trivial = a buffer is used through a view / address reuse is possible"
@@ -64,7 +64,7 @@ def _size_space(tier):
 
 
 def _static_space(tier):
-    sizes, aligns, mems = [1, 7, 64, 100], [1, 2, 64, 256], ["L1", "Test"]
+    sizes, aligns, mems = [1, 7, 64, 100], [1, 2, 64, 256], ["L1", "Test", "Odd", "Odd1"]
     one = [(s, a) for s in sizes for a in aligns]
     parts = []
     for n in range(1, 4 if tier == "quick" else 5):
@@ -284,7 +284,20 @@ def _prod(xs):
 # ------------------------------------------------------------------------------------------------ static
 
 STRUCT1 = "!llvm.struct<(!llvm.ptr, !llvm.ptr, i32, !llvm.array<1 x i32>, !llvm.array<1 x i32>)>"
-MEMS = {"L1": (0x10000000, 65536), "Test": (0, 100)}
+# Odd / Odd1: memory descriptions registered by the check whose start address is not a multiple of the usual alignments
+MEMS = {"L1": (0x10000000, 65536), "Test": (0, 100), "Odd": (0x1004, 300), "Odd1": (1, 600)}
+
+
+def _register_memories():
+    from xdsl.dialects.builtin import StringAttr
+    from snaxc.util.snax_memory import SnaxMemory
+
+    c = common.ctx()
+    for name in ("Odd", "Odd1"):
+        try:
+            c.get_memory(name)
+        except KeyError:
+            c.register_memory(SnaxMemory(StringAttr(name), capacity=MEMS[name][1], start=MEMS[name][0]))
 
 
 def pointer_constants(mod):
@@ -298,6 +311,7 @@ def pointer_constants(mod):
 
 
 def eval_static(r, mem, seq):
+    _register_memories()
     lines = []
     mems = []
     for i, (size, al) in enumerate(seq):
